@@ -49,6 +49,7 @@ func runEpochs(j Job) *Result {
 		eps := epochstypes.DefaultGenesis().Epochs
 		// stock identifiers keep zero start time (=> genesis time) except sometimes the week one starts later
 		nExtra := r.Intn(4)
+		loose := map[string]bool{}
 		for k := 0; k < nExtra; k++ {
 			var d time.Duration
 			switch r.Intn(6) {
@@ -83,6 +84,18 @@ func runEpochs(j Job) *Result {
 				e.CurrentEpoch = k0
 				e.CurrentEpochStartTime = e.StartTime.Add(time.Duration(k0-1) * d)
 				e.CurrentEpochStartHeight = 0
+				if r.Intn(3) == 0 {
+					// a document whose start time does not match its counter (left unset => genesis time, or any other
+					// time): the absolute formula start + (n-1) x duration has no meaning for it and is not judged, but
+					// the clock must still advance from the current epoch's start by exactly one duration per tick
+					loose[e.Identifier] = true
+					e.CurrentEpochStartTime = gt.Add(-time.Duration(r.Int63n(int64(d))))
+					if r.Intn(2) == 0 {
+						e.StartTime = time.Time{}
+					} else {
+						e.StartTime = gt.Add(-time.Duration(r.Int63n(int64(500 * time.Second))))
+					}
+				}
 			}
 			if !e.EpochCountingStarted && r.Intn(4) == 0 {
 				// not counting yet, but the document carries a left-over counter (the genesis validation accepts it):
@@ -222,7 +235,7 @@ func runEpochs(j Job) *Result {
 					st.Violate("clock", "state", hist, b, "block %d t=%s identifier %s: stored {n=%d started=%v start=%s h=%d}, reference {n=%d started=%v start=%s h=%d}", h, now.Format(time.RFC3339Nano), id,
 						got.CurrentEpoch, got.EpochCountingStarted, got.CurrentEpochStartTime.Format(time.RFC3339Nano), got.CurrentEpochStartHeight, re.n, re.started, re.curStart.Format(time.RFC3339Nano), re.curH)
 				}
-				if re.started && re.n >= 1 && !got.CurrentEpochStartTime.Equal(re.start.Add(time.Duration(re.n-1)*re.dur)) {
+				if re.started && re.n >= 1 && !loose[id] && !got.CurrentEpochStartTime.Equal(re.start.Add(time.Duration(re.n-1)*re.dur)) {
 					st.Violate("clock", "nth-start-time", hist, b, "identifier %s epoch %d starts at %s, want start+(n-1)*duration=%s", id, re.n, got.CurrentEpochStartTime, re.start.Add(time.Duration(re.n-1)*re.dur))
 				}
 			}
